@@ -168,7 +168,9 @@ class Array:
                 # empty selection: nothing was read
                 data = np.empty((0, *self.shape[1:]), dtype=self.dtype)
 
-        new_indexers = tuple(cons(slice(None), indexers[1:]))
+        # the selected rows are already stacked: an integer row indexer drops the axis, anything else keeps it
+        row_indexer = 0 if isinstance(indexers[0], int) else slice(None)
+        new_indexers = tuple(cons(row_indexer, indexers[1:]))
         return data[new_indexers]
 
     @property
